@@ -311,9 +311,114 @@ def sound_validators(prog, leaves, leafset, exceptions=()):
     return S, offences
 
 
-def certified_set(prog, leaves, gate_funcs, candidates):
+def unconditional_validators(prog, leaves, S, leafset, zero_counters=()):
+    """Greatest fixed point inside S (functions that drop no result): those in which *every* success
+    exit lies behind the success edge of a call to a leaf checker or to another member — i.e. the
+    verdict cannot be Ok without a check having run.  Edges taken when one of `zero_counters`
+    returned 0 (nothing to check) are cut.  Returns (set, {q: escaping exit blocks})."""
+    leafset = set(leafset)
+    U = {q for q in S if prog.bodies[q].kind != 'closure'}
+    why = {}
+    changed = True
+    while changed:
+        changed = False
+        for q in sorted(U):
+            b = prog.bodies[q]
+            cflows = flow.all_call_flows(b)
+            via = set()
+            gcalls = []
+            for bb, t in b.calls():
+                names = {n for n in (t.resolved, t.callee) if n}
+                if names & leafset or names & (U - {q}):
+                    cf = cflows[bb]
+                    if cf.ok_edges or cf.forward_blocks:
+                        via |= cf.ok_edges
+                        gcalls.append(bb)
+            cut = set(via) | infeasible_true_edges(prog, b)
+            for zc in zero_counters:
+                cut |= _zero_edges(b, zc)
+            cut |= _checked_loop_exhaustion_edges(b, cflows, gcalls, via)
+            targets = [e['bb'] for e in success_exit_blocks(b, forwarded_from=gcalls)]
+            reach = flow.reach_edges_cp(b, [0], avoid_edges=cut)
+            esc = [t_ for t_ in targets if t_ in reach]
+            if esc or not gcalls:
+                U.discard(q)
+                why[q] = esc
+                changed = True
+    return U, why
+
+
+def _checked_loop_exhaustion_edges(body, cflows, gcalls, via):
+    """`for x in all { check(x)?; } Ok(())`: a loop in which no iteration can complete without the
+    success edge of a check is an unconditional check of every element; its iterator-exhausted
+    edge (the None edge of the `next` call in the loop) counts as a passing edge."""
+    import loops
+    out = set()
+    if not gcalls:
+        return out
+    for h, nodes in loops.natural_loops(body).items():
+        if not any(g in nodes for g in gcalls):
+            continue
+        # a cycle through the header that avoids every success edge of a check?
+        seen = set()
+        work = [(h, s_) for s_ in body.succs(h)]
+        free_cycle = False
+        while work:
+            (a, x) = work.pop()
+            if (a, x) in via or x not in nodes:
+                continue
+            if x == h:
+                free_cycle = True
+                break
+            if x in seen:
+                continue
+            seen.add(x)
+            for s_ in body.succs(x):
+                work.append((x, s_))
+        if free_cycle:
+            continue
+        for bb in nodes:
+            t = body.blocks[bb].term
+            if t.k == 'call' and (t.resolved or t.callee or '').rsplit('::', 1)[-1] == 'next' and bb in cflows:
+                out |= {e for e in cflows[bb].err_edges}
+    return out
+
+
+def _zero_edges(body, counter_fn):
+    """Edges taken when `counter_fn(..) == 0`."""
+    edges = set()
+    uses = flow._collect_uses(body)
+    for bb, t in body.calls():
+        if (t.resolved or t.callee) != counter_fn or t.dest is None or not t.dest.is_local():
+            continue
+        locs = {t.dest.local}
+        work = [t.dest.local]
+        while work:
+            l = work.pop()
+            for (ubb, _, node, how) in uses.get(l, []):
+                if how == 'stmt' and node.rv.k == 'use' and node.place.is_local() and node.place.local not in locs:
+                    locs.add(node.place.local)
+                    work.append(node.place.local)
+                elif how == 'stmt' and node.rv.k == 'bin' and node.rv.raw['op'] in ('Eq', 'Ne', 'Gt') and node.place.is_local():
+                    other = [o for o in node.rv.ops if not (o.place is not None and o.place.is_local() and o.place.local == l)]
+                    if not other or other[0].int_value() != 0:
+                        continue
+                    for (sbb, _, snode, show) in uses.get(node.place.local, []):
+                        if show == 'switch':
+                            listed = {v: tg for v, tg in snode.values}
+                            if 0 not in listed:
+                                continue
+                            if node.rv.raw['op'] == 'Eq':
+                                edges.add((sbb, snode.otherwise))
+                            else:
+                                edges.add((sbb, listed[0]))
+    return edges
+
+
+def certified_set(prog, leaves, gate_funcs, candidates, zero_counters=()):
     """Greatest fixed point over `candidates`: functions all of whose success exits are dominated
-    by the success edge of a call to a gate function or to another certified function."""
+    by the success edge of a call to a gate function or to another certified function.  Edges taken
+    when one of `zero_counters` returned 0 (nothing to check) are cut."""
     C = set(candidates)
     gate_funcs = set(gate_funcs)
     detail = {}
@@ -333,7 +438,10 @@ def certified_set(prog, leaves, gate_funcs, candidates):
                         via |= cf.ok_edges
                         gcalls.append(bb)
             targets = [e['bb'] for e in success_exit_blocks(b, forwarded_from=gcalls)]
-            reach = flow.reach_edges_cp(b, [0], avoid_edges=via | infeasible_true_edges(prog, b))
+            zc = set()
+            for z in zero_counters:
+                zc |= _zero_edges(b, z)
+            reach = flow.reach_edges_cp(b, [0], avoid_edges=via | infeasible_true_edges(prog, b) | zc)
             esc = [t_ for t_ in targets if t_ in reach]
             if esc or not gcalls:
                 C.discard(q)
